@@ -197,7 +197,17 @@ def check(rep, F, tier, replay=None):
                             for alt in H.pat_alternatives(pat):
                                 if alt and alt[0] == "plit" and alt[1][0] == "int" and "None" not in str(H.strip(arm))[:80]:
                                     lits.add(int(alt[1][1]))
-            if lits != {0, 1}:
+                    # slice patterns over the digits: `[] => Some(..)`, `[digit] => Some(..)`
+                    for pat, g, arm in n_[3]:
+                        for alt in H.pat_alternatives(pat):
+                            q = alt
+                            while q and q[0] == "pref":
+                                q = q[1]
+                            if q and q[0] == "pslice" and not q[2] and "None" not in str(H.strip(arm))[:80]:
+                                lits.add(len(q[1]))
+            if not lits:
+                rep.lost("BigInt::as_u64 decides on the u64 digits in a shape the rule does not read (neither a match on len() nor slice patterns)")
+            elif lits != {0, 1}:
                 rep.violation("AS-u64", "digits|%s" % sorted(lits), "BigInt::as_u64 answers Some for %s u64 digits; exactly 0 and 1 digit fit into a u64" % sorted(lits), {})
         elif any(t.endswith("::bits") for t in tos):
             lims = []
